@@ -51,6 +51,10 @@ type Outcome struct {
 	// the workload is discarded, never reported.
 	Invalid       bool
 	InvalidReason string
+	// Skipped marks a run that was abandoned by design (a speculative
+	// release that blocked, or a speculative run in a mode that cannot
+	// speculate): discarded, never reported, no determinism record.
+	Skipped bool
 	// RunHash identifies the execution (schedule/event log + answers); two
 	// executions of one choice log must agree on it.
 	RunHash uint64
